@@ -5,7 +5,7 @@ from props.gossip_common import *
 ID = "C02"
 COQ_TARGETS = ["Run/Run_Gossip.vo"]
 META = {
-    "text": "Theorems (Properties/C02.v) over the Gallina world model (N nodes, packets in flight, owner write logs as ghost state): a node's own state is changed by no received packet, liveness or expiry step; versions reported for a node never move backwards while the node is known; per-entry validity of what a delta application can produce. The central invariant (V1-V4: everything reported was written by the owner; seen-up-to-v implies every key whose latest write is <= v shows the owner's current value or is hidden, deletions possibly taking effect at the owner's compaction point) is checked on every step of every generated history against the real clusterState by an independent monitor and by byte/field-exact correspondence of model and implementation; see the theorem file for which clauses are machine-proved and which are carried by the monitor (named _partial there).",
+    "text": "Theorem C02_world_invariant (Properties/C02.v), proved in Coq over the Gallina world model (N nodes with distinct ids/addresses, packets in flight, owner write logs as ghost state): in EVERY world reachable by any interleaving of local writes/deletes/leave/compactions, digest sends with any entry order and max packet size, delivery/duplication/loss in any order, liveness evaluations and join/leave streams, every node's view V of every other node x satisfies Valid V (own x) (log x): V1 reports a version the owner reached, V2 every reported entry was written by the owner, V3 seen-up-to-v implies every key whose latest write is <= v shows the owner's current value or tombstone, V4 an entry the owner compacted away lingers only below the owner's compaction marker. Corollaries: caught up => identical entries; a node's own state is changed by no received packet, liveness or expiry step; reported versions never move backwards for ANY received entries. The invariant is additionally checked on every step of generated histories against the real clusterState by an independent monitor, with byte/field-exact model/implementation correspondence.",
     "note": "Histories with expiry of a remote node can violate the invariant on the real code (finding F3, listed in KNOWN_FINDINGS.txt): the theorem is stated for expiry-free histories, the F3 witness is replayed on every run. Trusted: ugorji decoder on honest packets, UDP.",
     "technique": "Coq proof over a world model with ghost owner logs + per-step invariant monitor and model/implementation correspondence on generated lossy/duplicating/reordering histories",
 }
